@@ -147,7 +147,7 @@ def fam_note(rng):
 
 def fam_note_f4(rng):
     """n0 -> n1 -> n2: notify (n0) || free (n1).  Under some schedules notify (n0) never returns."""
-    lines = ["sem %s" % rng.choice(["counting", "binary"]), HDR, "expect stuck-ok",
+    lines = ["sem %s" % rng.choice(["counting", "binary"]), HDR,
              "pre note_new n0 - inf ; note_new n1 n0 inf ; note_new n2 n1 inf",
              "fiber notify n0", "fiber note_free n1"]
     if rng.random() < 0.5:
